@@ -4,6 +4,53 @@
 From Wharf Require Import Base.Prelude Base.BlocksLemmas Sig.Scan Sig.ScanProofs Sig.Sign Sig.Fanout Sig.SigFile.
 Local Open Scope N_scope.
 
+Section FanoutProofs.
+  Variable maxE : nat.
+  Hypothesis maxE_pos : (1 <= maxE)%nat.
+  Variable slice : nat.
+  Hypothesis slice_pos : (0 < slice)%nat.
+
+  (** ---- the fan-out ---- *)
+
+  Definition nonempty_chunks (chunks : list (list N)) : Prop := Forall (fun c : list N => c <> []) chunks.
+
+  Lemma copy_writes_spec fuel : forall (rd : reader N),
+    nonempty_chunks (rchunks rd) ->
+    (length (concat (rchunks rd)) + length (rchunks rd) < fuel)%nat ->
+    exists ws, copy_writes slice fuel rd = (ws, true) /\ concat ws = concat (rchunks rd) /\
+               forall k, (1 <= k)%nat -> runs_ok maxE k ws.
+  Proof.
+    induction fuel as [|f IH]; intros rd Hne Hf; [lia|]. cbn [copy_writes].
+    destruct (rchunks rd) as [|c r] eqn:E.
+    - rewrite (rd_read_nil _ _ E). exists [[]]. cbn. repeat split.
+      intros k Hk. destruct k; [lia|exact I].
+    - inversion Hne as [|? ? Hc Hr]; subst.
+      destruct (rd_read_data maxE slice rd c r E Hc slice_pos) as (d & e & rd' & Hrd & Hd & Hl & Hcc & _ & Hn & Hcase).
+      rewrite Hrd. rewrite E in Hcc, Hn.
+      destruct Hcase as [(He & _ & Hfa)|(He & Hnil)]; subst e.
+      + destruct (IH rd' (Hfa Hr)) as (ws & Hw & Hcw & Hrw).
+        { rewrite <- Hcc, app_length in Hf. destruct d; [congruence|]. cbn [length] in *. lia. }
+        rewrite Hw. exists (d :: ws). split; [reflexivity|]. split.
+        * rewrite <- Hcc, <- Hcw. reflexivity.
+        * intros k _. rewrite runs_ok_nonempty_head by exact Hd. apply Hrw. exact maxE_pos.
+      + exists [d]. split; [reflexivity|]. split.
+        * rewrite <- Hcc, Hnil. reflexivity.
+        * intros k _. rewrite runs_ok_nonempty_head by exact Hd. exact I.
+  Qed.
+
+  (** every pipe reader is served the upstream bytes, with at most one empty read at a time *)
+  Theorem fan_writes_spec chunks eofl :
+    nonempty_chunks chunks ->
+    exists ws, fan_writes slice chunks eofl = (ws, true) /\ concat ws = concat chunks /\ runs_ok maxE maxE ws.
+  Proof.
+    intros Hne. unfold fan_writes.
+    destruct (copy_writes_spec (fan_fuel chunks) (mkrd chunks eofl) Hne) as (ws & Hw & Hc & Hr).
+    { unfold fan_fuel. cbn [rchunks]. lia. }
+    exists ws. repeat split; [exact Hw|exact Hc|apply Hr; exact maxE_pos].
+  Qed.
+
+End FanoutProofs.
+
 Section SignProofs.
   Context {H : Type}.
   Variable bs : N.
@@ -52,47 +99,9 @@ Section SignProofs.
     compute_signature bs weak strong maxE srcs = (sign_all bs weak strong (map src_content srcs), SEof).
   Proof. apply compute_signature_from_spec. Qed.
 
-  (** ---- the fan-out ---- *)
   Variable slice : nat.
   Hypothesis slice_pos : (0 < slice)%nat.
   Hypothesis maxE_pos : (1 <= maxE)%nat.
-
-  Definition nonempty_chunks (chunks : list (list N)) : Prop := Forall (fun c : list N => c <> []) chunks.
-
-  Lemma copy_writes_spec fuel : forall (rd : reader N),
-    nonempty_chunks (rchunks rd) ->
-    (length (concat (rchunks rd)) + length (rchunks rd) < fuel)%nat ->
-    exists ws, copy_writes slice fuel rd = (ws, true) /\ concat ws = concat (rchunks rd) /\
-               forall k, (1 <= k)%nat -> runs_ok maxE k ws.
-  Proof.
-    induction fuel as [|f IH]; intros rd Hne Hf; [lia|]. cbn [copy_writes].
-    destruct (rchunks rd) as [|c r] eqn:E.
-    - rewrite (rd_read_nil _ _ E). exists [[]]. cbn. repeat split.
-      intros k Hk. destruct k; [lia|exact I].
-    - inversion Hne as [|? ? Hc Hr]; subst.
-      destruct (rd_read_data maxE slice rd c r E Hc slice_pos) as (d & e & rd' & Hrd & Hd & Hl & Hcc & _ & Hn & Hcase).
-      rewrite Hrd. rewrite E in Hcc, Hn.
-      destruct Hcase as [(He & _ & Hfa)|(He & Hnil)]; subst e.
-      + destruct (IH rd' (Hfa Hr)) as (ws & Hw & Hcw & Hrw).
-        { rewrite <- Hcc, app_length in Hf. destruct d; [congruence|]. cbn [length] in *. lia. }
-        rewrite Hw. exists (d :: ws). split; [reflexivity|]. split.
-        * rewrite <- Hcc, <- Hcw. reflexivity.
-        * intros k _. rewrite runs_ok_nonempty_head by exact Hd. apply Hrw. exact maxE_pos.
-      + exists [d]. split; [reflexivity|]. split.
-        * rewrite <- Hcc, Hnil. reflexivity.
-        * intros k _. rewrite runs_ok_nonempty_head by exact Hd. exact I.
-  Qed.
-
-  (** every pipe reader is served the upstream bytes, with at most one empty read at a time *)
-  Theorem fan_writes_spec chunks eofl :
-    nonempty_chunks chunks ->
-    exists ws, fan_writes slice chunks eofl = (ws, true) /\ concat ws = concat chunks /\ runs_ok maxE maxE ws.
-  Proof.
-    intros Hne. unfold fan_writes.
-    destruct (copy_writes_spec (fan_fuel chunks) (mkrd chunks eofl) Hne) as (ws & Hw & Hc & Hr).
-    { unfold fan_fuel. cbn [rchunks]. lia. }
-    exists ws. repeat split; [exact Hw|exact Hc|apply Hr; exact maxE_pos].
-  Qed.
 
   (** ---- the diff-time producer ---- *)
   Definition src_nonempty (src : list (list N) * bool) : Prop := nonempty_chunks (fst src).
@@ -104,7 +113,7 @@ Section SignProofs.
   Proof.
     induction srcs as [|[chunks eofl] r IH]; intros fileIndex F; [reflexivity|].
     inversion F as [|? ? Hok Fr]; subst. cbn [diff_time_from map sign_all_from].
-    destruct (fan_writes_spec chunks eofl Hok) as (ws & Hw & Hc & Hr). rewrite Hw.
+    destruct (fan_writes_spec maxE maxE_pos slice slice_pos chunks eofl Hok) as (ws & Hw & Hc & Hr). rewrite Hw.
     rewrite create_signature_spec by exact Hr. rewrite IH by exact Fr.
     unfold write_signature, src_content. cbn [fst]. rewrite Hc, map_app. reflexivity.
   Qed.
